@@ -113,11 +113,29 @@ def split_inherited(points, grads, state, ck, maxcor, what):
             continue
         if r == 0:
             return 0, q
-        ds = float(np.max(np.abs(sk[:r] - ck["sk"][mck - r:])))
-        dy = float(np.max(np.abs(yk[:r] - ck["yk"][mck - r:])))
-        if ds <= tol_s and dy <= tol_y:
-            return r, q
-        why_last = f"oldest {r} pairs differ from the checkpoint's newest {r}: |ds|={ds:.3e} (tol {tol_s:.1e}) |dy|={dy:.3e} (tol {tol_y:.1e})"
+        # the inherited pairs are a chronological run of the checkpoint's pairs: normally its newest r; when the
+        # restart itself rejects the re-appended newest pair (stricter eps_SY given at the restart) and no new pair
+        # follows, a run that ends earlier.  (That a restart with unchanged arguments keeps exactly the newest
+        # pairs is C06's clause, judged there.)
+        ends = [mck] if q > 0 else list(range(mck, r - 1, -1))
+        for j in ends:
+            ds = float(np.max(np.abs(sk[:r] - ck["sk"][j - r:j])))
+            dy = float(np.max(np.abs(yk[:r] - ck["yk"][j - r:j])))
+            if ds <= tol_s and dy <= tol_y:
+                return r, q
+        why_last = f"oldest {r} pairs differ from every run of {r} consecutive pairs of the checkpoint: e.g. newest |ds|={ds:.3e} (tol {tol_s:.1e}) |dy|={dy:.3e} (tol {tol_y:.1e})"
+    # Fallback for a restart that itself rejected the re-appended newest pair (curvature threshold changed at the
+    # restart): the memory then ends at an *older* checkpoint point, and the next stored pair bridges from that point
+    # to a new iterate.  Match against the checkpoint's reconstructed history followed by the new iterates, with the
+    # reconstruction tolerance.
+    past_x = [ck["x"] - np.sum(ck["sk"][i:], axis=0) for i in range(mck)]
+    past_g = [ck["jac"] - np.sum(ck["yk"][i:], axis=0) for i in range(mck)]
+    ext_p = past_x + list(points)
+    ext_g = past_g + list(grads)
+    for end in range(cur + mck, -1, -1):
+        chain, why = find_chain(ext_p, ext_g, sk, yk, end, tol_s=tol_s, tol_y=tol_y)
+        if chain is not None:
+            return -1, m
     raise Violation("pairs-are-differences-of-visited-points[restart]", f"{what}: no split into inherited + new pairs explains the {m} stored pairs; {why_last}")
 
 
@@ -162,6 +180,8 @@ def check_trace(spec, stats=None):
             c2["maxfun"] = prev.res["nfev"] + 200
             if rs.get("maxcor"):
                 c2["maxcor"] = rs["maxcor"]
+            if rs.get("eps_SY"):
+                c2["eps_SY"] = rs["eps_SY"]  # a stricter curvature threshold at the restart: the re-appended newest pair may be rejected
             nxt = run_min(prob, c2, checkpoint=prev.result, x0=np.array(prev.result.x, copy=True), callback="passive")
             if nxt.exc is not None:
                 raise Violation("restart-accepted", f"restart raised {type(nxt.exc).__name__}: {nxt.exc}")
@@ -274,8 +294,9 @@ def pairs_case(draw):
 def trace_strategy(draw):
     r = draw(run_spec(families=ALL_FAMILIES, n_max=8, jac_modes=("callable",), maxiter=(1, 30), maxfun=(2, 150), units=True, small_ls=draw(st.booleans()),
                       ftols=(0.0, 1e-12), gtols=(1e-8, 1e-6), with_scaler=True, maxcor_max=6))
-    nr = draw(st.sampled_from([0, 0, 1, 2, 3]))
-    restarts = [{"dit": draw(st.sampled_from([0, 1, 2, 5])), "maxcor": draw(st.sampled_from([None, None, 1, 2, 4]))} for _ in range(nr)]
+    nr = draw(st.sampled_from([0, 1, 2, 3]))
+    restarts = [{"dit": draw(st.sampled_from([0, 1, 2, 5])), "maxcor": draw(st.sampled_from([None, None, 1, 2, 4])), "eps_SY": draw(st.sampled_from([None, None, 1e-3, 1.0]))}
+                for _ in range(nr)]
     return {"run": r, "restarts": restarts}
 
 
